@@ -452,7 +452,8 @@ func conjImplies(c Conj, q DNF) (bool, string, error) {
 	sort.Strings(ovs)
 	n := len(bvs) + len(ovs)
 	if n > 22 {
-		return false, "", fmt.Errorf("implication over %d free variables is beyond the truth-table bound", n)
+		// too many for a truth table: search for a counterexample by case splitting with three-valued evaluation
+		return splitImplies(c, q, n)
 	}
 	base := map[string]uint64{}
 	for k, v := range a.bits {
@@ -511,4 +512,184 @@ func (c Conj) has(f func(Lit) bool) bool {
 		}
 	}
 	return false
+}
+
+// ---------------------------------------------------------------------------
+// Implication by case splitting (used beyond the truth-table bound): look for an assignment with c true and q false.
+// Literals are evaluated three-valued under a partial assignment; a branch is cut as soon as c is false or q is true.
+
+type partial struct {
+	bitsSet, bitsVal map[string]uint64
+	oth              map[string]bool
+	nodes            int
+}
+
+func (p *partial) lit3(l Lit) int {
+	v := -1
+	switch l.A.Kind {
+	case AkBit, AkAll:
+		m := l.A.Bits
+		set, val := p.bitsSet[l.A.Subj], p.bitsVal[l.A.Subj]
+		if set&m&^val != 0 {
+			v = 0
+		} else if set&m == m {
+			v = 1
+		}
+	case AkAny:
+		m := l.A.Bits
+		set, val := p.bitsSet[l.A.Subj], p.bitsVal[l.A.Subj]
+		if val&m != 0 {
+			v = 1
+		} else if set&m == m {
+			v = 0
+		}
+	default:
+		if b, ok := p.oth[l.A.ID()]; ok {
+			if b {
+				v = 1
+			} else {
+				v = 0
+			}
+		}
+	}
+	if v >= 0 && l.Neg {
+		v = 1 - v
+	}
+	return v
+}
+
+// conj3: 1 all literals true, 0 some literal false, -1 otherwise; also returns an undecided literal.
+func (p *partial) conj3(c Conj) (int, *Lit) {
+	var und *Lit
+	ids := make([]string, 0, len(c))
+	for id := range c {
+		ids = append(ids, id)
+	}
+	sort.Strings(ids)
+	for _, id := range ids {
+		l := c[id]
+		switch p.lit3(l) {
+		case 0:
+			return 0, nil
+		case -1:
+			if und == nil {
+				ll := l
+				und = &ll
+			}
+		}
+	}
+	if und == nil {
+		return 1, nil
+	}
+	return -1, und
+}
+
+func splitImplies(c Conj, q DNF, n int) (bool, string, error) {
+	p := &partial{bitsSet: map[string]uint64{}, bitsVal: map[string]uint64{}, oth: map[string]bool{}}
+	var rec func() (bool, error) // true: counterexample found (left in p)
+	rec = func() (bool, error) {
+		p.nodes++
+		if p.nodes > 3000000 {
+			return false, fmt.Errorf("implication over %d free variables: case split exceeded its budget (undecided)", n)
+		}
+		cv, cu := p.conj3(c)
+		if cv == 0 {
+			return false, nil
+		}
+		var pick *Lit
+		best := 1 << 30
+		allFalse := true
+		for _, qc := range q {
+			v, u := p.conj3(qc)
+			if v == 1 {
+				return false, nil // q holds on every completion
+			}
+			if v == -1 {
+				allFalse = false
+				cnt := 0
+				for _, l := range qc {
+					if p.lit3(l) == -1 {
+						cnt++
+					}
+				}
+				if cnt < best {
+					best, pick = cnt, u
+				}
+			}
+		}
+		if allFalse {
+			if cv == 1 {
+				return true, nil
+			}
+			pick = cu
+		}
+		if pick == nil {
+			pick = cu
+		}
+		if pick == nil {
+			return false, nil
+		}
+		// branch on one variable of the picked literal
+		switch pick.A.Kind {
+		case AkBit, AkAll, AkAny:
+			subj := pick.A.Subj
+			var bit uint64
+			for b := uint64(1); b != 0 && b <= pick.A.Bits; b <<= 1 {
+				if pick.A.Bits&b != 0 && p.bitsSet[subj]&b == 0 {
+					bit = b
+					break
+				}
+			}
+			if bit == 0 {
+				return false, nil
+			}
+			for _, val := range []bool{true, false} {
+				p.bitsSet[subj] |= bit
+				if val {
+					p.bitsVal[subj] |= bit
+				} else {
+					p.bitsVal[subj] &^= bit
+				}
+				found, err := rec()
+				if found || err != nil {
+					return found, err
+				}
+			}
+			p.bitsSet[subj] &^= bit
+			p.bitsVal[subj] &^= bit
+		default:
+			id := pick.A.ID()
+			for _, val := range []bool{true, false} {
+				p.oth[id] = val
+				found, err := rec()
+				if found || err != nil {
+					return found, err
+				}
+			}
+			delete(p.oth, id)
+		}
+		return false, nil
+	}
+	found, err := rec()
+	if err != nil {
+		return false, "", err
+	}
+	if !found {
+		return true, "", nil
+	}
+	var parts []string
+	for s, set := range p.bitsSet {
+		for b := uint64(1); b != 0 && b <= set; b <<= 1 {
+			if set&b != 0 && p.bitsVal[s]&b != 0 {
+				parts = append(parts, fmt.Sprintf("bit(%s,%#x)", s, b))
+			}
+		}
+	}
+	for id, v := range p.oth {
+		if v {
+			parts = append(parts, id)
+		}
+	}
+	sort.Strings(parts)
+	return false, "{" + strings.Join(parts, ", ") + "} (all other atoms false)", nil
 }
